@@ -36,6 +36,12 @@ T = {
     "C09": ("icontract post-condition on GridPoints (always on) + documented-grid oracle, orbit test on the mapping table under the harness' reciprocal point group (or time reversal), exactly invariant test functions summed over ir-points vs the full grid, phonon-level sums with mesh symmetry on vs off",
             "Held on the executions produced: 17 primitive cells of all lattice systems x meshes from {1..6}^3 x none/half/arbitrary/integer shifts x Gamma/MP x time reversal x fit_in_BZ x symmetry; Mesh and IterMesh; thermal properties, smearing DOS, moments. One known finding (symmetry-breaking half shift without time reversal).",
             "point group from the harness' own spglib call; tetrahedron DOS deliberately excluded", "3/C09"),
+    "C10": ("icontract post-condition on ThermalProperties.run (always on) + (nu,T)-plane sweep through a stub Mesh and real meshes; oracle = overflow-free closed forms in documented units, C vs Py, T=0 limits, finiteness, signs/monotonicity/Dulong-Petit bound, S=-dF/dT and C_V=T dS/dT by central differences",
+            "Held on the executions produced: h nu/kT from 1e-6 to 1e5 (incl. the former NaN regime > 709), cutoffs inside the spectrum, imaginary modes, pretend_real, band indices, projections, classical statistics, both languages; real zoo meshes through run_thermal_properties.",
+            "constants from phonopy.units; closed-form tolerance 1e-8 of the natural scale; classical entropy exempt from sign tests", "3/C10"),
+    "C11": ("post-condition monitors on TotalDos/ProjectedDos/TetrahedronMesh/TetrahedronMethod: sum rules, additivity, monotonicity, dJ/dw=I, compiled vs Python on consistent frequency fields; branch table measured by the harness",
+            "Held on the executions produced: zoo meshes (incl. 1-thick and shifted) with symmetry on/off, normal and Cauchy smearing, atom/xyz/direction projections; synthetic fields (smooth, rough, exact ties, constant) on grids with each of the 4 main diagonals shortest; all 4x5 (central vertex position x interval) cells reached.",
+            "frequencies generic (never exactly a vertex value) where C and Py are compared; smearing quadrature tolerance 2e-3", "3/C11"),
 }
 
 NA_REASON = "check not built yet in this round (runtime-monitoring driver pending); no claim is made"
